@@ -28,7 +28,7 @@ def rp(pkg, test, q, t, **kw):
 
 PURE_ASSUME = ["pgregory.net/rapid v1.3.0 generation/shrinking; Go 1.23.5", "the harness's own YAML emitter / JWT builder are correct (independent of the code under test)"]
 
-def STORM(test, q=(250, 4), t=(6000, 8)):
+def STORM(test, q=(250, 4), t=(3000, 8)):
     return {"pkg": "stress", "test": test, "race": True,
             "quick": {"checks": q[0], "shards": q[1], "shrink": "10s", "timeout": "10m", "env": {"GORACE": "halt_on_error=0"}},
             "thorough": {"checks": t[0], "shards": t[1], "shrink": "60s", "timeout": "1h", "env": {"GORACE": "halt_on_error=0"}}}
@@ -70,11 +70,11 @@ PROPS = {
     "C13": {"level": "exploration", "assumptions": ["the Go race detector (-race, Go 1.23.5) and the runtime's concurrent-map checks are the oracle; they see only executed paths within the detector's history window", "the harness's own runner, stores and counters are race-clean (they run under the same detector)"],
             "parts": [{"pkg": "stress", "test": "TestC13", "race": True,
                        "quick": {"checks": 60, "shards": 4, "shrink": "0s", "timeout": "15m", "env": {"GORACE": "halt_on_error=0"}},
-                       "thorough": {"checks": 1500, "shards": 16, "shrink": "0s", "timeout": "3h", "env": {"GORACE": "halt_on_error=0"}}},
+                       "thorough": {"checks": 1000, "shards": 16, "shrink": "0s", "timeout": "3h", "env": {"GORACE": "halt_on_error=0"}}},
                       BURST("TestC13Burst"), STORM("TestC13Race", q=(12, 2), t=(400, 8)),
                       {"pkg": "stress", "test": "TestC13Real", "race": True,
                        "quick": {"checks": 60, "shards": 4, "shrink": "0s", "timeout": "15m", "env": {"GORACE": "halt_on_error=0"}},
-                       "thorough": {"checks": 1500, "shards": 16, "shrink": "0s", "timeout": "3h", "env": {"GORACE": "halt_on_error=0"}}},
+                       "thorough": {"checks": 1000, "shards": 16, "shrink": "0s", "timeout": "3h", "env": {"GORACE": "halt_on_error=0"}}},
                       {"pkg": "procs", "test": "TestC13Binary", "helpers": ["race:pkg:github.com/Flowpack/prunner/cmd/prunner"],
                        "quick": {"checks": 4, "shards": 2, "shrink": "0s", "timeout": "15m"},
                        "thorough": {"checks": 120, "shards": 8, "shrink": "0s", "timeout": "2h"}}]},
@@ -85,7 +85,7 @@ PROPS = {
                       {"pkg": "httpauth", "fuzz": "FuzzC14Credential", "thorough": {"fuzztime": "180s", "wall": 900}}]},
     "C15": {"level": "exploration", "assumptions": SIM_ASSUME, "parts": [sim("TestC15", q=(250, 4), t=(3000, 16))]},
     "C16": {"level": "exploration", "assumptions": SIM_ASSUME + ["the binary part observes a reload through jobs scheduled over HTTP; a reload request (SIGUSR1 / poll) is given 3 s to take effect"],
-            "parts": [sim("TestC16"), STORM("TestC16Storm", q=(80, 2)), STORM("TestC16Race", q=(12, 2), t=(800, 8)), rp("procs", "TestC16Binary", (6, 2), (40, 4), helpers=["cmd/vhelper", "pkg:github.com/Flowpack/prunner/cmd/prunner"])]},
+            "parts": [sim("TestC16"), STORM("TestC16Storm", q=(80, 2)), STORM("TestC16Race", q=(12, 2), t=(400, 8)), rp("procs", "TestC16Binary", (6, 2), (40, 4), helpers=["cmd/vhelper", "pkg:github.com/Flowpack/prunner/cmd/prunner"])]},
     "C17": {"level": "exploration", "assumptions": PURE_ASSUME,
             "parts": [rp("inputs", "TestC17Load", (300, 2), (5000, 8)), rp("inputs", "TestC17Corrupt", (600, 2), (10000, 8)), rp("inputs", "TestC17Equals", (5000, 2), (100000, 8)), rp("inputs", "TestC17Reload", (300, 2), (6000, 8)),
                       rp("procs", "TestC17Binary", (3, 1), (40, 4), helpers=["cmd/vhelper", "pkg:github.com/Flowpack/prunner/cmd/prunner"]),
